@@ -111,7 +111,7 @@ def rule_d2(repo, col):
         if not any(fn == "<loop>" for fn in names) and not nothing:
             problems.append("the parent's clauses must be copied into the fresh index")
         appn = [a for fn, a in calls if fn == "self._append_node"]
-        if not appn or "self._define(" not in appn[0][0]:
+        if not appn or "self._create_index(" not in appn[0][0]:
             problems.append("a new define node must be appended to this database")
         red = [a for fn, a in calls if fn == "<store>" and a[0].startswith("self.__node_redirect[")]
         if not red:
@@ -149,10 +149,19 @@ def rule_d3(repo, col):
             ok = False
     col.decide("D3", m, sn.node, ok and len(paths) == 2, "_set_node refuses parent indices and writes only self.__nodes",
                "_set_node must raise for an index below the offset and otherwise write self.__nodes[index - offset] only", construct="def _set_node: table", function="ClauseDB._set_node")
-    src = [norm(s) for s in gn.node.body if not (isinstance(s, ast.Expr) and isinstance(s.value, ast.Constant))]
-    okg = len(src) >= 2 and src[0].startswith("index = self.__node_redirect.get(index, index)") and "self.__parent.get_node(index)" in src[1] and "self.__nodes[index - self.__offset]" in src[1]
+    ix = gn.params[1]
+    R = "self.__node_redirect.get(%s, %s)" % (ix, ix)
+    tab = {}
+    for p in dtable.extract(gn.node):
+        cd = dict((x, t) for x, t, _ in p.conds)
+        below = cd.get("%s < self.__offset" % R)
+        if below is None:
+            tab = None
+            break
+        tab[below] = p.value
+    okg = tab == {True: "self.__parent.get_node(%s)" % R, False: "self.__nodes[%s - self.__offset]" % R}
     col.decide("D3", m, gn.node, okg, "get_node applies the redirect table, then splits on the offset",
-               "get_node must first map the index through self.__node_redirect and then read the parent below the offset / its own list above it",
+               "get_node must first map the index through self.__node_redirect and then read the parent below the offset / its own list above it (found %s)" % tab,
                construct="def get_node: redirect + offset split", function="ClauseDB.get_node")
     ln = c.methods.get("__len__")
     ap = c.methods.get("_append_node")
